@@ -2559,7 +2559,7 @@ impl Entry<EntryReduced, EntryCommitted> {
                                 .unwrap_or_default(),
                         })
                     }
-                    ATTR_HOME_DIRECTORY => Some(LdapPartialAttribute {
+                    ATTR_HOME_DIRECTORY => attr_map.get(kani_a).map(|_| LdapPartialAttribute {
                         atype: ATTR_HOME_DIRECTORY.to_string(),
                         vals: vec![format!("/home/{}", self.get_uuid()).into_bytes()],
                     }),
